@@ -277,6 +277,8 @@ func runCase(line []byte, keepInput bool) (fmtResult, *fmtEvent) {
 	if err != nil {
 		obs.Reparse = err.Error()
 		res.MM["C03"] = append(res.MM["C03"], map[string]any{"obs": "reparse-fail"})
+		// formatting the output again is impossible: it is not returned unchanged either
+		res.MM["C14"] = append(res.MM["C14"], map[string]any{"obs": "output-unparseable"})
 		fail()
 		return res, ev
 	}
